@@ -842,6 +842,16 @@ def f6_defs(tier):
         "b": T(),
         "z": T([N(S, "z2", publish=[("seen", "<% ctx(cfg) %>")])]),
         "z2": T()}, vars=[{"seen": None}], output=[{"seen": "<% ctx(seen) %>"}]), S_ONLY))
+    # a second name that refers to the same dictionary (Jinja returns the object itself): publishing under
+    # one name must not change the other
+    out.append(("dict-alias-jinja", WF({
+        "t1": T([N(S, "t2", publish=[("a", {"q": RES})])]),
+        "t2": T(input={"p": "<% ctx(b) %>"})},
+        vars=[{"a": {"p": 1}}, {"b": "{{ ctx('a') }}"}], output=[{"b": "<% ctx(b) %>"}]), S_ONLY))
+    out.append(("dict-alias-yaql", WF({
+        "t1": T([N(S, "t2", publish=[("a", {"q": RES})])]),
+        "t2": T(input={"p": "<% ctx(b) %>"})},
+        vars=[{"a": {"p": 1}}, {"b": "<% ctx(a) %>"}], output=[{"b": "<% ctx(b) %>"}]), S_ONLY))
     # two terminal branches publish a dictionary under the same name (output rendering merges them)
     out.append(("dict-two-terminals", WF({
         "s": T([N(S, ["a", "b"])]),
